@@ -79,7 +79,14 @@ def observe (n : Nat) (s : St) (out : Sx) : Sx :=
            Sx.list (s.msgs.map fun m => ofNats [m.job, m.target, m.runid]),
            ofPairs s.inflight]
 
-def stepObs (g : Graph) (n : Nat) (s : St) (op : Op) : St × Sx :=
+/-- Re-tabulate the node map after every op (driver only): the model keeps `node` as a function,
+    and chains of closures would make look-ups slower with every op.  Nodes `≥ n` are never
+    touched by a case over `n` algorithms, so the tabulated function agrees with the original. -/
+def retab (n : Nat) (s : St) : St :=
+  let arr := ((List.range n).map s.node).toArray
+  { s with node := fun i => arr.getD i Node.empty }
+
+def stepObs' (g : Graph) (n : Nat) (s : St) (op : Op) : St × Sx :=
   match op with
   | .dispatch =>
     let r := dispatch g s
@@ -90,6 +97,10 @@ def stepObs (g : Graph) (n : Nat) (s : St) (op : Op) : St × Sx :=
   | op =>
     let s' := step g s op
     (s', observe n s' (Sx.atom "-"))
+
+def stepObs (g : Graph) (n : Nat) (s : St) (op : Op) : St × Sx :=
+  let r := stepObs' g n s op
+  (retab n r.1, r.2)
 
 def runObs (g : Graph) (n : Nat) : St → List Op → List Sx
   | _, [] => []
